@@ -126,6 +126,9 @@ pub fn drive(log: &mut Log) {
             if !log.mine(case) {
                 continue;
             }
+            if n >= 200 && variant >= 3 {
+                continue; // a 300 x 300 matrix is 90 000 cells for the specification
+            }
             let mut rng = Rng::new(seed, 31, case);
             let alpha: Vec<u8> = match variant % 3 {
                 0 => b"ACGT".to_vec(),
